@@ -276,14 +276,20 @@ def check_annotate(ctx, case_seed):
     if not named:
         return
     chosen = rnd.sample(named, rnd.randint(1, min(2, len(named))))
-    values = {n: rnd.choice((T1, T2, 'a string', 17, ('tuple', 1), None.__class__)) for n in chosen}
+    # (among the values: strings that read exactly like the source text of an annotation the parameter may already carry)
+    values = {n: rnd.choice((T1, T2, 'a string', 17, ('tuple', 1), None.__class__, 'T', 'U', 'T')) for n in chosen}
     use_ret = rnd.random() < 0.5
     ret = rnd.choice((T3, 'ret', 5))
     future = rnd.random() < 0.5
     stacked = rnd.random() < 0.4 and any(p[1] == PK for p in params)
+    already = set()
+    if rnd.random() < 0.5:
+        # the function is annotated already (T / U of its module); annotate replaces what it names and keeps the rest
+        params = tuple((n_, k_, d_, (rnd.choice(('T', 'U')) if rnd.random() < 0.6 else a_)) for n_, k_, d_, a_ in params)
+        already = {q[0] for q in params if q[3] is not None}
     ctx.evaluated()
     ctx.count('C11.annotate_cases')
-    f = sigs.make_func(params, name='annotated', future=future, register=True)
+    f = sigs.make_func(params, name='annotated', future=future, register=True, globs={'T': T1, 'U': T2})
     rp = dict(workload='annotate', case_seed=case_seed)
     w = {'function': '(%s)' % sigs.render(params), 'annotate': {k: repr(v) for k, v in values.items()},
          'return': repr(ret) if use_ret else None, 'future': future, 'stacked_under_kwoargs': stacked}
@@ -307,8 +313,12 @@ def check_annotate(ctx, case_seed):
     if use_ret and (s.return_annotation is not ret or s.upgraded_return_annotation.source_value() is not ret):
         V(ctx, 'annotate-return-not-verbatim', 'the return value given to annotate is not reported verbatim', w, rp)
     for n in named:
-        if n not in values and s.parameters[n].annotation is not EMPTY:
+        if n not in values and n not in already and s.parameters[n].annotation is not EMPTY:
             V(ctx, 'annotate-spurious', 'parameter %r got an annotation nobody gave' % n, w, rp)
+        if n not in values and n in already:
+            spelled = next(q[3] for q in params if q[0] == n)
+            if s.parameters[n].upgraded_annotation.source_value() is not {'T': T1, 'U': T2}[spelled]:
+                V(ctx, 'annotate-disturbs-other-annotation', 'an annotation annotate did not name no longer denotes its object', dict(w, parameter=n), rp)
     try:
         ev = s.evaluated()
         for n, v in values.items():
@@ -316,6 +326,62 @@ def check_annotate(ctx, case_seed):
                 V(ctx, 'annotate-evaluated-differs', 'evaluated() changes a value given to annotate', w, rp)
     except Exception as e:
         V(ctx, 'annotate-evaluated-raises', 'evaluated() raised %s' % type(e).__name__, w, rp)
+
+
+@core.guarded(lambda case_seed: dict(workload='unevaluable-neighbour', case_seed=case_seed))
+def check_unevaluable_neighbour(ctx, case_seed):
+    """A postponed annotation that cannot be evaluated at run time (a TYPE_CHECKING-only name) sits on a parameter
+    that LEAVES the signature (bound by a partial, consumed by mask / forwards, the instance of a bound method):
+    every annotation that is left still resolves, one by one, in its defining module."""
+    import sigtools
+    from sigtools import signatures as S
+    rnd = random.Random(case_seed)
+    rest = rnd.choice([q for q in sigs.U(('b', 'c'), 2, stars=sigs.STARS2[:1]) if not sigs.has_kind(q, PO)])
+    rest, ret = annotate_params(rnd, rest, p=0.8)
+    rest = tuple((n_, k_, d_, (a_ if a_ != "'Zed'" else 'T')) for n_, k_, d_, a_ in rest)
+    globs = CONFIGS['shared'][0]
+    how = rnd.choice(('partial', 'mask', 'forwards', 'bound-method', 'partial-of-bound-method'))
+    first = ('self' if 'method' in how else 'a', PK, None, 'OnlyWhileTypeChecking')
+    params = (first,) + tuple(rest)
+    ctx.evaluated()
+    ctx.count('C11.unevaluable_neighbour_cases')
+    rp = dict(workload='unevaluable-neighbour', case_seed=case_seed)
+    w = {'function': '(%s)%s' % (sigs.render(params), ' -> ' + ret if ret else ''), 'how_the_first_parameter_leaves': how, 'future': True}
+    try:
+        if 'method' in how:
+            src = 'class C(object):\n    def m(%s)%s: return None\n' % (sigs.render(params), ' -> ' + ret if ret else '')
+            inst = sigs.compile_module(src, globs=dict(globs), future=True, tag='vann')['C']()
+            res = sigtools.signature(inst.m if how == 'bound-method' else functools.partial(inst.m))
+        else:
+            f = build(params, ret, globs, True, 'f')
+            if how == 'partial':
+                res = sigtools.signature(functools.partial(f, 0))
+            elif how == 'mask':
+                res = S.mask(sigtools.signature(f), 1)
+            else:
+                outer = build((('x', PK, None, None), ('args', VA, None, None), ('kwargs', VK, None, None)), None, globs, True, 'outer')
+                res = S.forwards(sigtools.signature(outer), sigtools.signature(f), 1)
+    except Exception as e:
+        V(ctx, 'operation-raises-%s' % type(e).__name__, 'the operation raised %s: %s' % (type(e).__name__, e), w, rp)
+        return
+    ctx.nontrivial(('unevaluable-neighbour', how, rest, ret))
+    for (n_, k_, d_, a_) in rest:
+        if n_ not in res.parameters:
+            continue
+        try:
+            got = res.parameters[n_].upgraded_annotation.source_value()
+        except Exception as e:
+            V(ctx, 'source-value-raises-because-of-another-annotation',
+              'source_value() of %r raises %s although its own annotation resolves (another parameter, no longer in the signature, carries an unevaluable one)' % (n_, type(e).__name__),
+              dict(w, result=show(res)), rp)
+            return
+        if got is not denoted(a_, globs):
+            V(ctx, 'source-value-wrong-next-to-unevaluable', 'source_value() of %r is %r' % (n_, got), dict(w, result=show(res)), rp)
+    try:
+        res.evaluated()
+    except Exception as e:
+        V(ctx, 'evaluated-raises-because-of-another-annotation', 'evaluated() raises %s although every annotation left in the signature resolves' % type(e).__name__,
+          dict(w, result=show(res)), rp)
 
 
 @core.guarded(lambda case_seed: dict(workload='annotate-method', case_seed=case_seed))
@@ -405,11 +471,15 @@ def run(ctx):
             check_annotate(ctx, rnd.getrandbits(48))
         if i % 10 == 1:
             check_annotate_method(ctx, rnd.getrandbits(48))
+        if i % 10 == 2:
+            check_unevaluable_neighbour(ctx, rnd.getrandbits(48))
 
 
 def replay(ctx, rec):
     if rec['workload'] == 'annotate':
         check_annotate(ctx, rec['case_seed'])
+    elif rec['workload'] == 'unevaluable-neighbour':
+        check_unevaluable_neighbour(ctx, rec['case_seed'])
     elif rec['workload'] == 'annotate-method':
         check_annotate_method(ctx, rec['case_seed'])
     else:
